@@ -178,7 +178,40 @@ func stReplay(raw json.RawMessage, idx int, tr *traceWriter) {
 		}()
 		inmStatus, inmBody = w2.Code, w2.Body.Len()
 	}
-	tr.emit(map[string]interface{}{"ev": "static", "inm_status": inmStatus, "inm_body": inmBody, "method": c.Method, "segs": c.Segs, "prefix": c.Prefix, "kind": kind, "id": id,
+	// conditional re-request by date (a revalidation: If-Modified-Since far in the future, no If-None-Match): a file may be
+	// answered 304; a directory is redirected / falls through / is served through its index exactly as without the header
+	firstNextRan, firstWrittenAtNext, firstLeaked := nextRan, writtenAtNext, len(leaked)
+	nextRan, writtenAtNext = false, false
+	req3 := &http.Request{Method: c.Method, URL: &url.URL{Path: req.URL.Path}, Header: http.Header{"If-Modified-Since": {"Fri, 01 Jan 2100 00:00:00 GMT"}},
+		Proto: "HTTP/1.1", ProtoMajor: 1, ProtoMinor: 1, Host: "x"}
+	w3 := httptest.NewRecorder()
+	func() {
+		defer func() {
+			if r := recover(); r != nil {
+				panicked = true
+			}
+		}()
+		f.ServeHTTP(w3, req3)
+	}()
+	imsKind := "file"
+	switch {
+	case nextRan && !writtenAtNext:
+		imsKind = "silent"
+	case nextRan:
+		imsKind = "?written-and-next"
+	case w3.Code == 301 || w3.Code == 302:
+		imsKind = "redirect"
+		if w3.Header().Get("Location") != w.Header().Get("Location") {
+			imsKind = "?other-location"
+		}
+	case w3.Code == 304 && w3.Body.Len() == 0:
+		imsKind = "notmodified"
+	case w3.Code != 200 || (c.Method != "HEAD" && w3.Body.String() != w.Body.String()):
+		imsKind = "?status" + strconv.Itoa(w3.Code)
+	}
+	nextRan, writtenAtNext = firstNextRan, firstWrittenAtNext
+	leaked = leaked[:firstLeaked]
+	tr.emit(map[string]interface{}{"ev": "static", "ims_kind": imsKind, "inm_status": inmStatus, "inm_body": inmBody, "method": c.Method, "segs": c.Segs, "prefix": c.Prefix, "kind": kind, "id": id,
 		"loc": loc, "written": written && !(nextRan && !writtenAtNext), "next_ran": nextRan, "leaked": len(leaked), "panicked": panicked, "status": w.Code})
 }
 
